@@ -1,4 +1,4 @@
-(* Actual/CollectActual.v — the quirk vector claimed for the current tree: every flag off since the fixes b20520c, 27377de,
+(* Actual/CollectActual.v — the quirk vector claimed for the current tree: every flag of a repaired defect off since the fixes b20520c, 27377de,
    bbae54e and 9c8f928 (the model then runs the generated functions themselves).  Hand-maintained; tied to the
    code by the C14 correspondence check, listed flag-by-flag in known.d/C14.json). *)
 From TL Require Import Lib.Base Model.Collect.
@@ -10,4 +10,5 @@ Definition collect_actual : cquirks := {|
   q_dirpat_filename := false;
   q_doublestar_needs_dir := false;
   q_ti_shadows_config := false;
-  q_json_ignore_unused := false |}.
+  q_json_ignore_unused := false;
+  q_ignore_cwd_spelling := true |}.   (* still present: known.d/C14.json (same root cause as C09 q_ignore_no_reroot) *)
